@@ -8,6 +8,8 @@ Static clauses:
              no Span struct literal elsewhere and no assignment to Span.start / Span.end anywhere (spans are immutable once made)
   F-SAMEID   at every Error::not_in_scope(name, node) call, `name` is the `.value` of the node passed as location
   F-COPYSPAN every analysis diagnostic copies the span of the node it concerns (`ast.span().clone()` / `.span.clone()`)
+  (forms)    F-COORD judges a private constructor helper (`Error::new(message, src, span)`) per call site; `Span::as_str()` (the
+             construct's own text) is a source kind that never agrees with absolute offsets
 Not decided: character-boundary alignment (pest's guarantee), rendering.
 """
 from .. import mir
